@@ -901,6 +901,35 @@ class LayoutTyper(Structured):
                 and len(t.args) == 1 and isinstance(t.args[0], ast.Name):
             if truth:
                 st[t.args[0].id] = SCALAR
+        # `len(axes) == 0` / `not axes` with axes = D.axes(S): no attribute is named, so marginalising S out of D leaves D
+        empty_of = None
+        if isinstance(t, ast.Compare) and len(t.ops) == 1 and isinstance(t.left, ast.Call) and U(t.left.func) == 'len' and len(t.left.args) == 1 \
+                and isinstance(t.comparators[0], ast.Constant) and t.comparators[0].value == 0 and isinstance(t.ops[0], (ast.Eq, ast.NotEq)):
+            if truth == isinstance(t.ops[0], ast.Eq):
+                empty_of = t.left.args[0]
+        elif isinstance(t, ast.UnaryOp) and isinstance(t.op, ast.Not) and truth:
+            empty_of = t.operand
+        elif isinstance(t, (ast.Name, ast.Attribute)) and not truth:
+            empty_of = t
+        if empty_of is not None:
+            S = D = None
+            v_ = st.get(empty_of.id) if isinstance(empty_of, ast.Name) else None
+            if isinstance(v_, V) and v_.kind == 'axes':
+                D, S = v_.a, v_.b
+            elif isinstance(empty_of, ast.Name) and empty_of.id in self.fi.params:
+                S = self.attrs_term(empty_of, st)
+            if S is not None:
+                old = st.get('#subst')
+                pairs = set(old.a) if old is not None else set()
+                doms = [D] if D is not None else [('domof', 'self')]
+                for d_ in doms:
+                    pairs.add((('marginalize', d_, S), d_))
+                    for k, v in list(st.items()):
+                        if isinstance(v, V) and v.kind in ('fac', 'arr', 'dom', 'axes'):
+                            st[k] = V(v.kind, replace_term(v.a, ('marginalize', d_, S), d_), replace_term(v.b, ('marginalize', d_, S), d_) if v.b else v.b,
+                                      deps=v.deps, flags=v.flags)
+                st['#subst'] = V('subst', frozenset(pairs))
+                return st
         if isinstance(t, ast.Compare) and len(t.ops) == 1 and isinstance(t.ops[0], (ast.Eq, ast.NotEq)):
             # `if A.domain == B.domain:` (Domain.__eq__ is order-sensitive): unify the two terms on the equal branch
             l_, r_ = t.left, t.comparators[0]
